@@ -701,6 +701,15 @@ class tzfile(_tzinfo):
             lastoffset = offset
             lastbaseoffset = baseoffset
 
+            # A wall time belongs to the period after a transition from the
+            # first reading that only the new offset produces (gap) or that
+            # both offsets produce (fold), i.e. the smaller offset applies.
+            if i == 0:
+                prevoffset = out.ttinfo_before.offset
+            else:
+                prevoffset = out.trans_idx[i-1].offset
+            adjustment = min(prevoffset, offset)
+
             out.trans_list.append(out.trans_list_utc[i] + adjustment)
 
         out.trans_idx = tuple(out.trans_idx)
